@@ -557,6 +557,8 @@ class ActionTypeHint(Action):
             value = [value]
         elif isinstance(value, dict):
             raise TypeError(f'Parser key "{self.dest}":\n  Expected a list. Got value: {value}')
+        elif isinstance(value, list):
+            value = list(value)  # do not modify the given list
         for num, val in enumerate(value):
             try:
                 orig_val = val
